@@ -17,22 +17,23 @@ P = {
          "survives every validated applied transition for every instance with non-negative times, every oracle/seed "
          "(C01_one_transition_partial), hence holds in every state and micro-state reachable through the middleware under any "
          "action sequence of any length (C01_reachable_partial, C01_micro_states_partial, C01_step_partial), and end to end from "
-         "every document the compiler model accepts (C01_from_document_partial). For instances whose machine post-buffers are "
-         "unordered (FLEX, the compiler's default) the statement is UNCONDITIONAL: C01_reachable_flex / C01_micro_states_flex / "
-         "C01_side_condition_derived_flex - every state and micro-state of every run (plain reach, no hypothesis on the log) from "
-         "an initial state meeting boolean hypotheses (checked on every compiled initial state) is feasible; the side condition is "
-         "derived by a provenance argument over batches (SMP/Prov, LiftProv, ProvBatch). For ordered (FIFO/LIFO/DUMMY) machine "
-         "post-buffers it stays PARTIAL: one side condition (transit_side_b: an AGV never takes a job in process) is a hypothesis "
-         "on the micro-log, evaluated by the extracted monitor on every transition the implementation applies. " + TIE),
+         "every document the compiler model accepts (C01_from_document_partial). The statement is UNCONDITIONAL for EVERY instance: "
+         "C01_reachable_every_instance / C01_micro_states_every_instance / C01_side_condition_derived_every_instance - every state "
+         "and micro-state of every run (plain reach, no hypothesis on the log, no hypothesis on the instance) from "
+         "an initial state meeting boolean hypotheses (checked on every compiled initial state) is feasible; the side condition of "
+         "the _partial theorems is derived by a provenance argument over batches (SMP/Prov, LiftProv, ProvBatch), including ordered "
+         "(FIFO/LIFO/DUMMY) machine post-buffers, where transitions are re-issued from stored time dependencies (invariant DEPI: a "
+         "dependency is the AGV's own transition for its own claim, lying behind the blocking job; batch invariant Qdep). The side "
+         "condition is still evaluated by the extracted monitor on every transition the implementation applies. " + TIE),
  "C02": ("SM", "Theorems (Props/C02.v; SMP/Post, Offers): exact post-state of SETUP->WORKING (operation and machine get start=now, "
          "end=now+d with d the value sampled now, once), of WORKING->OUTAGE (end extended by exactly the longest active outage), of "
          "OUTAGE->IDLE (record DONE with end=now), outage lengths non-negative, and timed transitions are created only when due "
          "(C02_not_early) - for all states/instances/oracles, one transition at a time. OVER WHOLE RUNS (SMP/Durations.v, "
-         "C02_durations_reachable_flex / _micro_states_flex): in every state and micro-state of every run on an instance with "
-         "unordered (FLEX, default) machine post-buffers, every DONE operation with a deterministic configured duration lasted at "
+         "C02_durations_reachable_every_instance / _micro_states_every_instance): in every state and micro-state of every run of "
+         "every instance, every DONE operation with a deterministic configured duration lasted at "
          "least that duration and exactly that duration on a machine without outage configuration (durations_b) - proved by showing "
          "every machine transition is applied exactly when due (provenance lifting: not early; clock invariant: not late) and that a "
-         "busy machine's PROCESSING record ends at occupied_till. For ordered post-buffers and stochastic durations: durations_b and "
+         "busy machine's PROCESSING record ends at occupied_till. For stochastic durations: durations_b (which skips them) and "
          "the event monitors ev_work/ev_due on every implementation state/transition (monitored). " + TIE),
  "C03": ("SM", "Theorems (Props/C03.v; SMP/WF, Preserve, StepInv, Reflect): every job is stored exactly once, every stored number is a "
          "job, locations name the holding buffer, flags agree with stores - preserved by EVERY applied transition with no side "
@@ -43,24 +44,23 @@ P = {
          "dispatches, which come from offers of unclaimed jobs or the teleport filter); an AGV's phase agrees with its claim, route and "
          "place - idle and broken-down AGVs are empty and stand at a place, a broken-down AGV has no claim, the WORKING phase is never "
          "entered (C03_agv_phase_*, unconditional); a busy machine holds exactly one job, an "
-         "idle one none (C03_machine_holds_one_partial, corollary of the C01 invariant with its monitored side condition; "
-         "C03_machine_holds_one_flex: unconditional for instances with unordered machine post-buffers; "
-         "C03_agv_holds_only_its_claim_flex: agv_hold_b in every state of every run of such instances, SMP/Hold.v). " + TIE),
+         "idle one none (C03_machine_holds_one_every_instance: every state of every run of every instance); an AGV holds at most one job and only "
+         "its claim (C03_agv_holds_only_its_claim_every_instance: agv_hold_b in every state of every run, SMP/Hold.v). " + TIE),
  "C04": ("Env", "Theorems (Props/C04.v; SMP/Decline, Atomic): env model - a done episode refuses steps (C04_done_raises), terminated and "
          "truncated are never both set (C04_exclusive), terminated iff the middleware result has no offers and every job lies in an "
          "output buffer with all its operations done (C04_term_flag; all_in_output as repaired by fix 7fd110d), the reported makespan is the clock set to the latest DONE end (C04_makespan_is_clock); a job in an "
          "OUTPUT buffer has all operations done in every reachable state, so a terminated episode has finished all work "
          "(C04_output_done_partial, C04_terminated_all_done_partial; SMP/OutputDone.v, invariant carried with FE and the AGV-load "
-         "invariant; C04_output_done_flex / C04_terminated_all_done_flex: UNCONDITIONAL over plain runs for instances whose machine "
-         "post-buffers are unordered, the compiler's default) - otherwise PARTIAL: two side conditions on applied TRANSIT transitions (job not in process, job = the AGV's claim) are "
-         "hypotheses on the micro-log, evaluated by the extracted monitors on every transition the implementation applies. " + TIE +
+         "invariant; C04_output_done_every_instance / C04_terminated_all_done_every_instance: UNCONDITIONAL over plain runs of every "
+         "instance - the two side conditions on applied TRANSIT transitions (job not in process, job = the AGV's claim) are derived, "
+         "and still evaluated by the extracted monitors on every transition the implementation applies). " + TIE +
          " env.step of the implementation is replayed on the env model; an independent reading of flags/makespan runs on every step; when "
          "the correspondence breaks a directed search (phased policies, zero-travel shops, truncation on) looks for a failing input."),
  "C05": ("SM", "Theorems (Props/C05.v): a successful step re-establishes the store and clock invariants, a failing step returns its "
-         "input state (clean failure), offered transitions never fail validation (C05_no_validation_error); OVER WHOLE RUNS, for instances "
-         "whose machine pre- and post-buffers are unordered (the default): the middleware never receives an unsuccessful result "
+         "input state (clean failure), offered transitions never fail validation (C05_no_validation_error); OVER WHOLE RUNS, for every instance "
+         "whose machine pre-buffers are unordered (any post-buffers): the middleware never receives an unsuccessful result "
          "(success=False) in any run - every transition the simulator applies passes validation where it is applied "
-         "(C05_step_never_reports_failure_flex, SMP/NoFail.v; the check also judges every reported failure in generated episodes). Liveness (every offered "
+         "(C05_step_never_reports_failure_unordered_pre, SMP/NoFail.v; the check also judges every reported failure in generated episodes). Liveness (every offered "
          "action can be taken, the episode can always finish) is FALSE of the code and refuted by theorem: C05_refuted_step / "
          "C05_refuted_reachable show, for a compiled document reached through the middleware, that accepting the offered action makes "
          "state.step run out of EVERY fuel (lasso lemma SMP/Hang.v; the witness is replayed on the implementation on every run). "
@@ -70,8 +70,8 @@ P = {
          "theorem (fuel-bounded model). " + TIE),
  "C06": ("Classic", "Theorems (Props/C06.v; Classic/*): for classic instances (teleporting AGVs, zero travel) the Taillard lower bound "
          "computed by the model of calculate_lower_bound is below the makespan of EVERY feasible schedule (C06_lb_sound, via the packing "
-         "lemma), and a feasible schedule exists (sequential). END TO END (C06_lower_bound_below_every_terminated_run_flex, SMP/EndToEnd.v): for "
-         "an instance whose job table is classic and whose machine post-buffers are unordered, the operation records of EVERY terminated "
+         "lemma), and a feasible schedule exists (sequential). END TO END (C06_lower_bound_below_every_terminated_run_every_instance, SMP/EndToEnd.v): for "
+         "every instance whose job table is classic (any buffer disciplines), the operation records of EVERY terminated "
          "run of the middleware (any actions, oracle, fuel; AGVs/setups/outages allowed) form a feasible schedule of the classic instance, "
          "so the bound is at most every upper bound of the completion times, in particular the reported makespan - the environment's "
          "optimum cannot be below the bound and the terminal reward cannot exceed its maximum. That the environment's action space reaches an optimal schedule is "
@@ -82,11 +82,11 @@ P = {
          "the BACK of the route's destination buffer and frees the AGV claim; AGV timed events are created only when due; the pickups "
          "the simulator schedules itself are only for the claimed job and only when it is ready (C07_pickup_only_claimed_ready) and "
          "satisfy, where created, the side conditions the partial theorems of C01/C04 assume (C07_side_conditions_at_creation). One "
-         "transition at a time, all states/instances/oracles. Over whole runs, for instances with unordered (FLEX) machine "
-         "post-buffers: EVERY -> TRANSIT transition applied in ANY run takes the AGV's own claim and a job that is not in process "
-         "(C07_every_pickup_claimed_and_not_in_process_flex; no AGV ever waits on a time dependency), and an operation never starts "
+         "transition at a time, all states/instances/oracles. Over whole runs of EVERY instance (ordered post-buffers and time "
+         "dependencies included, SMP/ProvBatch.v): EVERY -> TRANSIT transition applied in ANY run takes the AGV's own claim and a job that is not in process "
+         "(C07_every_pickup_claimed_and_not_in_process_every_instance), and an operation never starts "
          "earlier than its predecessor's end plus the deterministic travel-time entry between the two machines, in every state and "
-         "micro-state of every run (C07_start_after_predecessor_plus_travel_flex, SMP/Travel.v: released into the finishing machine's "
+         "micro-state of every run (C07_start_after_predecessor_plus_travel_*_every_instance, SMP/Travel.v: released into the finishing machine's "
          "post-buffer, picked up with the entry for that direction, delivered exactly when due; clause travel_gap_b also monitored "
          "on every implementation state, all instances). " + TIE),
  "C08": ("SM", "Theorems (Props/C08.v): capacity_b (no buffer above its capacity) in every reachable state and micro-state (from WFS); "
@@ -95,18 +95,18 @@ P = {
          "(ev_pre_release, ev_transit_release, ev_stores) on every applied transition. " + TIE),
  "C09": ("SM", "Theorems (Props/C09.v): IDLE->SETUP reads matrix[(mounted tool, new tool)], stamps now + that value, mounts the new tool, "
          "moves the job in; offers only name idle machines; WORKING starts no earlier than the setup end (clock invariant); tool frame; "
-         "over whole runs (instances with unordered or capacity-one machine post-buffers, SMP/Setup.v): in every state and micro-state "
+         "over whole runs of every instance (SMP/Setup.v): in every state and micro-state "
          "of every run each machine's started operations form a sequence in which every operation's processing starts no earlier than "
          "the end of the one before plus matrix[(tool before, own tool)] (the first: initial tool, episode start), the mounted tool being "
-         "the newest one's (C09_setup_sequence_*_flex, ghost sequence), and the same on the records alone for neighbouring DONE "
-         "operations (C09_consecutive_operations_separated_*_flex, clause setup_gap_b, also evaluated on every implementation state). " + TIE),
+         "the newest one's (C09_setup_sequence_*_every_instance, ghost sequence), and the same on the records alone for neighbouring DONE "
+         "operations (C09_consecutive_operations_separated_*_every_instance, clause setup_gap_b, also evaluated on every implementation state). " + TIE),
  "C10": ("SM", "Theorems (Props/C10.v): WORKING->OUTAGE / TRANSIT->OUTAGE block for exactly the longest sampled active outage, durations "
          "non-negative, no outage when none is due, release makes every record inactive and remembers its own end time, an OUTAGE "
          "component accepts only the release transition; over whole runs: outside OUTAGE every record is inactive and active records "
          "have start <= end in every reachable state and micro-state (C10_outage_records_*, SMP/Outages.v, no side condition). " + TIE),
  "C11": ("SM", "Theorems (Props/C11.v; SMP/Offers): every offered transport/machine transition passes validation and names a ready job "
-         "(offers_are_valid); over whole runs, for instances with unordered or capacity-one machine post-buffers, every offer of every "
-         "reachable result is valid in the state it is offered in (C11_every_offer_is_valid_in_every_run_flex, SMP/OffersValid.v). "
+         "(offers_are_valid); over whole runs of every instance every offer of every "
+         "reachable result is valid in the state it is offered in (C11_every_offer_is_valid_in_every_run_every_instance, SMP/OffersValid.v). "
          "Absence of deadlock is FALSE of the code and refuted by theorem inside the property's configuration "
          "class: C11_refuted (always-accept reaches a non-terminal state without offers; every further action raises, for every "
          "fuel) and C11_refuted_hang; both witnesses are replayed on the implementation on every run. The check classifies every "
